@@ -352,7 +352,10 @@ def location_strings(sc, plan, st):
     for p in plan["locations"]:
         absp = os.path.join(sc.root, p)
         if st.get("resource") and st.get("sep") not in (":", "os"):
-            out.append(("%s:%s" % (sc.token, p), absp))       # package resource, coerce_resource_to_filename
+            # package resource (coerce_resource_to_filename): "pkg:dir/sub", or every path segment as its own
+            # colon token "pkg:dir:sub" - both denote <package directory>/dir/sub
+            rel = p.replace("/", ":") if st["resource"] == "colon" else p
+            out.append(("%s:%s" % (sc.token, rel), absp))
         elif st.get("relative"):
             out.append((p + ("/" if st.get("slash") else ""), absp))   # relative to the working directory (run_impl chdirs to the root)
         elif st.get("delivery") == "ini" and st.get("here"):
@@ -368,7 +371,9 @@ def make_config(sc, plan, st, joined):
     option string (None = option absent)."""
     sep = st.get("sep") if joined is not None else None
     script_location = os.path.join(sc.root, "scripts")
-    if st.get("script_resource"):
+    if st.get("script_resource") == "colon":
+        script_location = "%s:scripts" % sc.token
+    elif st.get("script_resource"):
         script_location = "%s:scripts" % sc.token
     elif st.get("relative"):
         script_location = "scripts"
